@@ -584,6 +584,9 @@ def _run_duplex(case: dict) -> Outcome:
                     return fail(f"duplex:disconnect-raises:{type(err).__name__}", f"{where}: {err!r}")
                 if mem.closed_count < 1:
                     return fail("duplex:connection-not-closed", f"{where}: disconnect returned but the connection was never closed")
+                if mem.discarded and mem.lost_exc is None and mem.close_exc is None:
+                    # the peer was slow: the written lines were still queued in the connection (writes returned normally, nothing failed)
+                    return fail("duplex:queued-output-discarded-by-disconnect", f"{where}: {mem.discarded} written chunks were still queued in the healthy connection; disconnect aborted it instead of closing it, so they never reach the stream")
                 # a disconnected transport is not connected: using it raises a transport error
                 for name, call in (("read", transport.read), ("write", lambda: transport.write("1;1;1;0;2;1\n"))):
                     try:
